@@ -290,9 +290,21 @@ class USet:
                 t, g = exp_normal(c.expr, fresh)
                 T += t
                 G += g
-            elif c.is_atom() and c.expr.kind not in ('abs', 'norm1', 'norminf'):
+            elif c.is_atom() and c.expr.kind not in ('abs', 'norm1', 'norminf', 'norm2'):
                 raise HarnessError('relaxed_poly: unsupported atom %s' % c.expr.kind)
         return G, H, T, aux
+
+    def soc_polys(self):
+        """Second-order-cone memberships of the set as (head, [tail...]) Poly pairs: k*|e|_2 + off <= 0 (k > 0)
+        is (-off/k, e) in SOC."""
+        out = []
+        for c in self.cons:
+            if c.is_atom() and c.expr.kind == 'norm2':
+                a = c.expr
+                if a.k <= 0 or c.sense != 'le':
+                    raise HarnessError('non-convex norm constraint in a set')
+                out.append((a.off.reshape(-1)[0] * (-1 / a.k), list(a.arg.reshape(-1))))
+        return out
 
     def relaxed(self, env):
         """(constraints, triples) as z3 terms: every membership (x, y, z) in K_exp is replaced by its linear
